@@ -161,23 +161,43 @@ pub fn close(x: f64, y: f64, scale: f64) -> bool {
     (x - y).abs() <= 1e-10 * x.abs().max(y.abs()).max(scale)
 }
 
-pub fn vals_close(a: &[Val], b: &[Val], scale: f64) -> bool {
-    a.len() == b.len() && a.iter().zip(b).all(|(x, y)| x.sh == y.sh && x.d.len() == y.d.len() && x.d.iter().zip(&y.d).all(|(p, q)| close(*p, *q, scale)))
+/// `x` and `y` equal up to the absolute tolerance `tol` (statistics of off-centre data: the
+/// tolerance is stated relative to the spread of the data, see `vals.rs`).
+#[inline]
+pub fn close_abs(x: f64, y: f64, tol: f64) -> bool {
+    if x == y || (x.is_nan() && y.is_nan()) {
+        return true;
+    }
+    x.is_finite() && y.is_finite() && (x - y).abs() <= tol
+}
+
+/// `abs[k]` (when present) is the absolute tolerance of the k-th returned value; the other values
+/// are compared with the relative rule of `close`.
+pub fn vals_close(a: &[Val], b: &[Val], scale: f64, abs: &[f64]) -> bool {
+    a.len() == b.len()
+        && a.iter().zip(b).enumerate().all(|(k, (x, y))| {
+            x.sh == y.sh
+                && x.d.len() == y.d.len()
+                && x.d.iter().zip(&y.d).all(|(p, q)| match abs.get(k) {
+                    Some(t) => close_abs(*p, *q, *t),
+                    None => close(*p, *q, scale),
+                })
+        })
 }
 
 /// Two backends did the same thing (both panicked, or returned values equal up to rounding).
-pub fn outs_agree(a: &Out, b: &Out, scale: f64) -> bool {
+pub fn outs_agree(a: &Out, b: &Out, scale: f64, abs: &[f64]) -> bool {
     match (a, b) {
         (Err(_), Err(_)) => true,
-        (Ok(x), Ok(y)) => vals_close(x, y, scale),
+        (Ok(x), Ok(y)) => vals_close(x, y, scale, abs),
         _ => false,
     }
 }
 
-pub fn out_matches(o: &Out, e: &Exp, scale: f64) -> bool {
+pub fn out_matches(o: &Out, e: &Exp, scale: f64, abs: &[f64]) -> bool {
     match (o, e) {
         (Err(_), Exp::Reject) => true,
-        (Ok(x), Exp::Val(y)) => vals_close(x, y, scale),
+        (Ok(x), Exp::Val(y)) => vals_close(x, y, scale, abs),
         _ => false,
     }
 }
@@ -401,6 +421,7 @@ impl Op {
     pub fn show(&self) -> String {
         match self.k {
             K::Norm | K::VNorm | K::PowMut | K::BinarizeMut | K::ApproxEq | K::VApproxEq => format!("{}({})", self.name(), self.x),
+            K::ScaleMut if self.x != 0.0 => format!("scale_mut(mean = {} + [1,2,..], std = [2,3,..], axis {})", self.x, self.w),
             K::Mean | K::Var | K::Std | K::ScaleMut => format!("{}(axis {})", self.name(), self.w),
             K::ScalarMut | K::VScalarMut => format!("{}({}) and its copying twin", self.name(), self.x),
             K::ElementMut => format!("{}({},{},{})", self.name(), self.i, self.j, self.x),
@@ -459,9 +480,10 @@ fn lane(a: &M, axis: usize, k: usize) -> Vec<f64> {
     }
 }
 
-/// The vectors handed to `scale_mut` (deterministic, non-zero divisors).
-pub fn scale_args(n: usize) -> (Vec<f64>, Vec<f64>) {
-    ((0..n).map(|k| (k + 1) as f64).collect(), (0..n).map(|k| (k + 2) as f64).collect())
+/// The vectors handed to `scale_mut` (deterministic, non-zero divisors). `shift` (the `x` of the
+/// operation instance; 0 everywhere but in the off-centre value family) is added to the means.
+pub fn scale_args(n: usize, shift: f64) -> (Vec<f64>, Vec<f64>) {
+    ((0..n).map(|k| shift + (k + 1) as f64).collect(), (0..n).map(|k| (k + 2) as f64).collect())
 }
 
 pub fn broadcastable(a: &M, b: &M) -> bool {
@@ -487,6 +509,34 @@ pub fn dot_class(a: &M, b: &M) -> &'static str {
     }
 }
 
+/// Largest minus smallest entry.
+pub fn spread(v: &[f64]) -> f64 {
+    let (lo, hi) = v.iter().fold((f64::INFINITY, f64::NEG_INFINITY), |(l, h), x| (l.min(*x), h.max(*x)));
+    if hi >= lo {
+        hi - lo
+    } else {
+        0.0
+    }
+}
+
+/// The data sit far from the origin compared with their spread (|x| >= 10^4 * max(spread, 1)
+/// for some entry): one-pass moment formulas cancel there.
+pub fn off_centre(a: &M) -> bool {
+    a.max_abs() >= 1e4 * spread(&a.v).max(1.0)
+}
+
+/// Two of the values are different but equal up to 4 ulps (0.3 and 0.1 + 0.2, 1 and 1 + eps).
+pub fn has_near_pair(v: &[f64]) -> bool {
+    let mut u = uniq(&v.iter().cloned().filter(|x| x.is_finite()).collect::<Vec<_>>());
+    u.dedup();
+    u.windows(2).any(|w| (w[1] - w[0]).abs() <= 4.0 * f64::EPSILON * w[0].abs().max(w[1].abs()))
+}
+
+/// Corresponding entries of the two (same-shape) operands differ, but by at most the machine epsilon.
+pub fn differ_by_at_most_eps(a: &M, b: &M) -> bool {
+    a.same_shape(b) && a.v != b.v && a.v.iter().zip(&b.v).all(|(x, y)| (x - y).abs() <= f64::EPSILON)
+}
+
 /// Input class used in site keys. `panicked`: the backend being classified panicked (a backend that
 /// rejects every mismatch does not distinguish broadcastable from other mismatches).
 pub fn input_class(op: &Op, a: &M, b: Option<&M>, panicked: bool) -> String {
@@ -497,6 +547,8 @@ pub fn input_class(op: &Op, a: &M, b: Option<&M>, panicked: bool) -> String {
         // below it the exponentials are denormal (precision lost) or 0 (result 0/0 = NaN)
         (K::SoftmaxMut, _) if a.v.iter().cloned().fold(f64::NEG_INFINITY, f64::max) - a.max_abs() < -708.0 => "max-abs-shift-underflows".to_string(),
         (K::Dot, Some(b)) => dot_class(a, b).to_string(),
+        (K::ApproxEq | K::EqOp, Some(b)) if differ_by_at_most_eps(a, b) => "same-shape-operands-differ-by-at-most-epsilon".to_string(),
+        (K::VApproxEq, Some(b)) if differ_by_at_most_eps(a, b) => "same-length-operands-differ-by-at-most-epsilon".to_string(),
         (K::EwMut | K::CopyFrom | K::ApproxEq | K::EqOp | K::MaxDiff, Some(b)) => {
             let co = (a.r == b.r || a.r == 1 || b.r == 1) && (a.c == b.c || a.c == 1 || b.c == 1);
             if a.same_shape(b) {
@@ -592,7 +644,7 @@ pub fn model(op: &Op, a: &M, b: Option<&M>) -> Exp {
         }
         K::ScaleMut => {
             let n = if op.w == 0 { a.c } else { a.r };
-            let (mu, sd) = scale_args(n);
+            let (mu, sd) = scale_args(n, op.x);
             one(Val::mat(&M::new(a.r, a.c, |i, j| {
                 let k = if op.w == 0 { j } else { i };
                 (a.at(i, j) - mu[k]) / sd[k]
